@@ -2,6 +2,7 @@ import HpxVerif.Lemmas.BmocEnc
 import HpxVerif.Lemmas.BmocPack
 import HpxVerif.Lemmas.BmocLower
 import HpxVerif.Lemmas.BmocBuilder
+import HpxVerif.Lemmas.BmocOr2
 
 /-!
 # C15 — BMOC builders preserve exactly what was pushed
@@ -13,7 +14,8 @@ siblings remain; `to_lower_depth` rejects `new_depth ≥ depth_max`.
 **`to_lower_depth_sem`** (kept iff it contained something; full iff inside one full cell of depth ≤ new depth; output
 well formed); **`buff_to_bmoc_sem`** (the run-length grouping covers exactly the sorted buffer, both `next_power_of_two`
 arms); **`fixed_builder_sem_of_or_spec`** (every push sequence, duplicates, order, drain schedule: exactly what was
-pushed, `None` iff nothing) relative to the specification of `BMOC::or` on equal-depth operands.
+pushed, `None` iff nothing) relative to the specification of `BMOC::or` on equal-depth operands, which holds
+(`or_spec_holds`), hence **`fixed_builder_sem`** unconditionally.
 -/
 
 namespace Hpx.C15
@@ -161,5 +163,20 @@ theorem fixed_builder_sem_of_or_spec (hor : OrSpec) (depth : Nat) (flag : Bool) 
       ∀ m, r = some m → m.dmax = depth ∧ (∀ e ∈ m.entries, ValidRaw depth e) ∧ WF depth m.cells ∧
         ∀ x, stOf depth m.cells x = if x ∈ ps.map (·.1) then Tri.ofFlag flag else .abs :=
   fixed_builder_sem hor depth flag hd ps hlt
+
+open Hpx.Bmoc.Builder in
+/-- the specification of `or` that the builder relies on holds (C08 `or3_sem` through `pack`) -/
+theorem or_spec_holds : OrSpec := fun A B D hD hA hB gA gB => Hpx.Bmoc.bmoc_or_good A B D hD hA hB gA gB
+
+open Hpx.Bmoc.Builder in
+/-- **`fixed_builder_sem`, unconditional**: for every depth `≤ 29`, flag, push sequence (any order, any duplicates) and
+    drain schedule, `with_capacity; push*; to_bmoc` does not panic, returns `None` iff nothing was pushed, and otherwise a
+    well-formed BMOC with valid entries in which exactly the pushed cells carry the flag -/
+theorem fixed_builder_sem (depth : Nat) (flag : Bool) (hd : depth ≤ 29) (ps : List (Nat × Bool))
+    (hlt : ∀ p ∈ ps, p.1 < 12 * 4 ^ depth) :
+    ∃ r, runBuilder depth flag ps = some r ∧ (r = none ↔ ps = []) ∧
+      ∀ m, r = some m → m.dmax = depth ∧ (∀ e ∈ m.entries, ValidRaw depth e) ∧ WF depth m.cells ∧
+        ∀ x, stOf depth m.cells x = if x ∈ ps.map (·.1) then Tri.ofFlag flag else .abs :=
+  Hpx.Bmoc.Builder.fixed_builder_sem or_spec_holds depth flag hd ps hlt
 
 end Hpx.C15
